@@ -773,6 +773,7 @@ func (c *Conn) ReadAvailable() (data []byte, eof bool) {
 	defer p.mu.Unlock()
 	data = p.buf
 	p.buf = nil
+	p.cond.Broadcast() // room again for a writer waiting on a bounded pipe
 
 	return data, p.wclosed
 }
